@@ -21,7 +21,7 @@ var (
 	c03Bytes   = []string{" ", "\t", "[", "]", "(", ")", "|", ".", "-", "=", "<", ">", "a", "z", "X", "Q", "1", "_", "$", "\xc3"}
 	c03BytesSm = []string{" ", "[", "]", "(", ")", "|", ".", "-", "=", "<", ">", "a", "X"}
 	c03Lexemes = []string{"[", "]", "(", ")", "|", "...", "-a", "-z", "--aa", "-ab", "OPTIONS", "X", "Q", "--", "=<v>"}
-	c03Argvs   = [][]string{{}, {"x"}, {"-a"}, {"--"}, {"x", "x"}, {"-ab", "x"}}
+	c03Argvs   = [][]string{{}, {"x"}, {"-a"}, {"--"}, {"x", "x"}, {"-ab", "x"}, {""}, {"-o", ""}, {"--out", "", "x"}}
 )
 
 var envSubsets = []map[string]string{{}, {"a": "true"}, {"o": "ev"}, {"a": "true", "o": "ev"}}
@@ -104,9 +104,10 @@ func runTerm(c *Ctx) {
 		toks   []string
 		alen   int
 	}
-	tiers := []t3{{leavesFull, 3, tokTiny, 3}, {leavesMid, 4, tokTiny, 1}, {leavesNest, 5, []string{"x", "-a"}, 2}}
+	tokTinyE := append(append([]string{}, tokTiny...), "", "-o")
+	tiers := []t3{{leavesFull, 3, tokTinyE, 3}, {leavesMid, 4, tokTiny, 1}, {leavesNest, 5, []string{"x", "-a"}, 2}}
 	if c.Thorough() {
-		tiers = []t3{{leavesFull, 4, tokTiny, 3}, {leavesTiny, 5, tokTiny, 3}, {leavesMid, 5, tokTiny, 1}, {leavesNest, 6, []string{"x", "-a"}, 2}}
+		tiers = []t3{{leavesFull, 4, tokTinyE, 3}, {leavesTiny, 5, tokTiny, 3}, {leavesMid, 5, tokTiny, 1}, {leavesNest, 6, []string{"x", "-a"}, 2}}
 	}
 	for _, t := range tiers {
 		g := ref.NewSpecGen(t.leaves)
